@@ -236,3 +236,14 @@ func ParallelFor(n, w int, f func(i int)) {
 	close(ch)
 	wg.Wait()
 }
+
+// Guard runs f; a panic escaping it is recorded as a violation (the code under test blew up in a
+// place the harness did not expect) instead of killing the shard.
+func (r *Run) Guard(what string, detail interface{}, f func()) {
+	if pn, msg := Catch(f); pn {
+		if i := len(msg); i > 140 {
+			msg = msg[:140]
+		}
+		r.Violation("unexpected panic while "+what+": "+msg, detail)
+	}
+}
